@@ -282,8 +282,8 @@ class BaseGroupBy(ABC):
         result = self._grouper.nth(self._values_to_group, n)
         return (
             result
-            if isinstance(result, pd.Series)
-            else pd.Series(result, name=self._obj.name)
+            if isinstance(result, (pd.Series, pd.DataFrame))
+            else pd.Series(result, name=getattr(self._obj, "name", None))
         )
 
     def head(self, n: int = 5) -> pd.Series:
@@ -303,8 +303,8 @@ class BaseGroupBy(ABC):
         result = self._grouper.head(self._values_to_group, n)
         return (
             result
-            if isinstance(result, pd.Series)
-            else pd.Series(result, name=self._obj.name)
+            if isinstance(result, (pd.Series, pd.DataFrame))
+            else pd.Series(result, name=getattr(self._obj, "name", None))
         )
 
     def tail(self, n: int = 5) -> pd.Series:
@@ -324,8 +324,8 @@ class BaseGroupBy(ABC):
         result = self._grouper.tail(self._values_to_group, n)
         return (
             result
-            if isinstance(result, pd.Series)
-            else pd.Series(result, name=self._obj.name)
+            if isinstance(result, (pd.Series, pd.DataFrame))
+            else pd.Series(result, name=getattr(self._obj, "name", None))
         )
 
     def agg(self, func, mask: Optional[ArrayType1D] = None) -> pd.Series:
